@@ -11,15 +11,18 @@ import (
 
 func main() {
 	if len(os.Args) < 2 || os.Args[1] != "hist" {
-		vx.Die("usage: hx-c15 hist --nev N --npr N --nno N --conc N --barrier N --seed S --out cases.v --stats stats.json")
+		vx.Die("usage: hx-c15 hist --nev N --npr N --nno N --nrl N --conc N --barrier N --fresh N --seed S --out cases.v --stats stats.json")
 	}
 	fs := flag.NewFlagSet("hist", flag.ExitOnError)
 	nev := fs.Int("nev", 200, "event histories")
 	npr := fs.Int("npr", 100, "promise histories")
 	nno := fs.Int("nno", 150, "notifier histories")
+	nrl := fs.Int("nrl", 40, "event histories with a LinkTo at a chosen position of a running walk")
 	conc := fs.Int("conc", 10, "free-running runs per kind")
 	barrier := fs.Int("barrier", 3000, "rounds of barrier-released simultaneous triggers on limited events/hooks")
 	barrierMs := fs.Int("barrier-ms", 4000, "wall-clock cap for the barrier rounds")
+	fresh := fs.Int("fresh", 4000, "rounds of barrier-released FIRST operations on fresh events / promise events / notifiers")
+	freshMs := fs.Int("fresh-ms", 3000, "wall-clock cap for the fresh-object rounds")
 	seed := fs.Uint64("seed", 1, "")
 	out := fs.String("out", "cases.v", "")
 	stats := fs.String("stats", "stats.json", "")
@@ -67,7 +70,13 @@ func main() {
 		add("notifier", t, k, nt, f, "random")
 	}
 	re, rp, rn, rb := r.Fork(), r.Fork(), r.Fork(), r.Fork() // (the barrier stream is forked last: the older streams keep their seeds)
+	rf, rl := r.Fork(), r.Fork()
+	for i := 0; i < *nrl; i++ {
+		t, k, nt, _, f := runEventHistory(rl.Fork(), 0, 4)
+		add("event", t, k, nt, f, "relink-in-walk")
+	}
 	barrierLimits(rb, st, *barrier, time.Duration(*barrierMs)*time.Millisecond)
+	freshFirstUse(rf, st, *fresh, time.Duration(*freshMs)*time.Millisecond)
 	concEvents(re, st, *conc)
 	concPromise(rp, st, *conc)
 	concNotifier(rn, st, *conc)
